@@ -353,4 +353,9 @@ def rule_r6(ctx) -> RuleResult:
 def run(ctx) -> list:
     cg = CallGraph(ctx.index)
     sf = SqlFacts(ctx.index)
-    return [rule_r1(ctx, cg, sf), rule_r2(ctx, cg), rule_r3(ctx, cg, sf), rule_r4(ctx, sf), rule_r5(ctx), rule_r6(ctx)]
+    results = [rule_r1(ctx, cg, sf), rule_r2(ctx, cg), rule_r3(ctx, cg, sf), rule_r4(ctx, sf), rule_r5(ctx), rule_r6(ctx)]
+    if ctx.thorough:
+        from ..core.cgcheck import crosscheck
+
+        results.append(crosscheck(ctx, cg, "C20.CG"))
+    return results
